@@ -302,11 +302,18 @@ pub struct Env {
 }
 
 pub fn show_table(entries: &[Vec<u8>]) -> String {
-    let v: Vec<String> = entries
+    let mut v: Vec<String> = entries
         .iter()
         .enumerate()
         .map(|(i, e)| format!("{i}:\"{}\"", escape(e)))
         .collect();
+    if v.len() > 120 {
+        // huge tables of the `large` lane: head and tail only (the replay file has all of it)
+        let tail = v.split_off(v.len() - 20);
+        v.truncate(60);
+        v.push(format!("... ({} entries in total) ...", entries.len()));
+        v.extend(tail);
+    }
     format!("[{}]", v.join(", "))
 }
 
@@ -485,6 +492,7 @@ pub fn kind_tag(kind: &str) -> &'static str {
         "guided" => "table/guided",
         "substrings" => "table/substrings",
         "trained" => "table/trained",
+        "huge" => "table/huge",
         _ => "table/other",
     }
 }
@@ -560,10 +568,17 @@ fn gen_string(rng: &mut Rng, a: &Alphabet, pieces: &[String], trailing_p: f64) -
     if rng.random_bool(0.3) {
         s.push_str(&ws_run(rng, a));
     }
+    // `large` lane: either long words or many words per string (not both: cost)
+    let (wscale, nscale) = match gen::scale() {
+        1 => (1, 1),
+        // (words longer than ~1500 bytes cost the quadratic reference CPU-minutes)
+        k if rng.random_bool(0.5) => (k.min(40), 1),
+        k => (1, k),
+    };
     let n_words = match rng.random_range(0..20) {
         0 => 0,
-        1..=7 => 1,
-        _ => rng.random_range(2..=5),
+        1..=7 => nscale,
+        _ => rng.random_range(2..=5 * nscale),
     };
     for w in 0..n_words {
         if w > 0 {
@@ -571,15 +586,15 @@ fn gen_string(rng: &mut Rng, a: &Alphabet, pieces: &[String], trailing_p: f64) -
         }
         let mut word = String::new();
         if pieces.is_empty() || rng.random_bool(0.45) {
-            word = gen_word(rng, a, 8);
+            word = gen_word(rng, a, 8 * wscale);
         } else {
-            for _ in 0..rng.random_range(1..=3) {
+            for _ in 0..rng.random_range(1..=3 * wscale) {
                 if rng.random_bool(0.75) {
                     word.push_str(pieces.choose(rng).map(|s| s.as_str()).unwrap_or("a"));
                 } else {
                     word.push_str(&gen_word(rng, a, 2));
                 }
-                if word.len() > 30 {
+                if word.len() > 30 * wscale {
                     break;
                 }
             }
@@ -622,7 +637,7 @@ fn table_random_concat(rng: &mut Rng, a: &Alphabet) -> Vec<Vec<u8>> {
         let x = pick(rng, &entries);
         let y = pick(rng, &entries);
         let cat = [x, y].concat();
-        if cat.len() > 14 || seen.contains(&cat) {
+        if cat.len() > gen::sc(14) || seen.contains(&cat) {
             continue;
         }
         seen.insert(cat.clone());
@@ -665,6 +680,33 @@ fn table_guided(rng: &mut Rng, a: &Alphabet, samples: &[String]) -> Vec<Vec<u8>>
         entries.push(cat);
     }
     entries
+}
+
+/// `large` lane: a table beyond 2^16 entries: all two-symbol strings over 40 ascii symbols, then
+/// random concatenations of two of them up to 65 300 - 70 000 entries
+fn table_huge(rng: &mut Rng) -> (Alphabet, Vec<Vec<u8>>) {
+    let syms: Vec<u8> = (b'a'..=b'z').chain(b'0'..=b'9').chain(*b"+-*/").collect();
+    let mut entries: Vec<Vec<u8>> = vec![];
+    for x in &syms {
+        for y in &syms {
+            entries.push(vec![*x, *y]);
+        }
+    }
+    let pairs = entries.len();
+    let target = rng.random_range(65_300..=70_000);
+    let mut seen: BTreeSet<(usize, usize)> = BTreeSet::new();
+    while entries.len() < target {
+        let (p, q) = (rng.random_range(0..pairs), rng.random_range(0..pairs));
+        if seen.insert((p, q)) {
+            let cat = [entries[p].as_slice(), entries[q].as_slice()].concat();
+            entries.push(cat);
+        }
+    }
+    let a = Alphabet {
+        letters: syms.iter().map(|b| (*b as char).to_string()).collect(),
+        ws: vec![" ".to_string()],
+    };
+    (a, entries)
 }
 
 const PATTERNS: &[&str] = &[
@@ -711,12 +753,12 @@ fn table_substrings(rng: &mut Rng, patterns: &[String]) -> Vec<Vec<u8>> {
 }
 
 fn gen_corpus(rng: &mut Rng, a: &Alphabet) -> (String, Vec<String>) {
-    let n_vocab = rng.random_range(3..=10);
+    let n_vocab = rng.random_range(3..=gen::sc(10));
     let vocab: Vec<String> = (0..n_vocab).map(|_| gen_word(rng, a, 5)).collect();
     // Zipfian weights 1/(rank+1)
     let weights: Vec<f64> = (0..n_vocab).map(|i| 1.0 / (i as f64 + 1.0)).collect();
     let total: f64 = weights.iter().sum();
-    let n_lines = rng.random_range(4..=40);
+    let n_lines = rng.random_range(4..=gen::sc(40));
     let mut corpus = String::new();
     for _ in 0..n_lines {
         let n_words = rng.random_range(1..=12);
@@ -796,14 +838,41 @@ fn gen_cfgs(rng: &mut Rng, n_entries: usize) -> Vec<Cfg> {
 /// alphabet; `trailing_p`: share of alphabet strings that end in whitespace
 pub fn gen_case(rng: &mut Rng, wild_p: f64, trailing_p: f64) -> Case {
     let mut a = gen_alphabet(rng);
-    let n_strings = rng.random_range(5..=20);
+    let n_strings = if gen::scale() > 1 { rng.random_range(3..=6) } else { rng.random_range(5..=20) };
     let mut strings: Vec<String> = vec![];
     let kind = rng.random_range(0..100);
-    let (table, pieces, n_entries) = if kind < 12 {
+    let (table, pieces, n_entries) = if gen::scale() == 250 && rng.random_bool(0.6) {
+        let (alpha, entries) = table_huge(rng);
+        a = alpha;
+        // strings mostly from the entries with the highest ids
+        let n = entries.len();
+        let pieces: Vec<String> = (0..40)
+            .map(|_| {
+                let i = if rng.random_bool(0.8) { rng.random_range(n - 6000..n) } else { rng.random_range(0..n) };
+                String::from_utf8_lossy(&entries[i]).to_string()
+            })
+            .collect();
+        (
+            Table::Hand {
+                kind: "huge".to_string(),
+                entries,
+            },
+            pieces,
+            n,
+        )
+    } else if kind < 12 {
         // (iii) trained
         let (corpus, vocab) = gen_corpus(rng, &a);
-        let merges = rng.random_range(1..=10);
-        let (vocab_size, k) = if rng.random_bool(0.7) { (320, 64 - merges) } else { (384, 128 - merges) };
+        let merges = rng.random_range(1..=gen::sc(10));
+        let (vocab_size, k) = if gen::scale() > 1 {
+            // train_bpe wants a multiple of 64
+            let v = (256 + 64 + merges).div_ceil(64) * 64;
+            (v, v - 256 - merges)
+        } else if rng.random_bool(0.7) {
+            (320, 64 - merges)
+        } else {
+            (384, 128 - merges)
+        };
         // frequent words as they occur in the corpus (inner words carry one space) and bare
         for w in vocab.iter().take(5) {
             strings.push(format!(" {w}"));
@@ -915,9 +984,16 @@ impl Prop for C03 {
     const RESETS_PANIC_HOOK: bool = true;
 
     fn lanes(tier: Tier) -> Vec<Lane> {
-        vec![Lane::new("main", tier.pick(48_000, 800_000))
-            .cap(tier.pick(120, 1200))
-            .floor(tier.pick(8_000, 100_000))]
+        vec![
+            Lane::new("main", tier.pick(48_000, 800_000))
+                .cap(tier.pick(120, 1200))
+                .floor(tier.pick(8_000, 100_000)),
+            // every length 10 / 50 / 250 times bigger: tables of up to thousands of entries, words
+            // of up to 2000 symbols or strings of up to 1250 words, trainings with hundreds of merges
+            Lane::new("large", tier.pick(1_600, 32_000))
+                .cap(tier.pick(150, 1200))
+                .floor(tier.pick(100, 2_000)),
+        ]
     }
 
     fn rule() -> &'static str {
